@@ -2,6 +2,7 @@
    the translator extracted for the C02 check (Generated/C02.lean). -/
 import PsutilModel.Model.C01
 import PsutilModel.Model.C02Fault
+import PsutilModel.Model.C02Stat
 import PsutilModel.Generated.C02
 namespace Psutil.C02
 open Psutil.C01
@@ -67,5 +68,28 @@ def initNarrow : Bool :=
     the model the driver runs treats the read as answering "no such process" — the worst case for C02 -/
 def statFault : StatFault :=
   if statReadBare && catBare && wrapNarrow && isRunningNarrow && initNarrow then .propagates else .asGone
+
+/-! ### the reader of `/proc/<pid>/stat` (seeded round 5, C02-6): the shape facts of harness/props/c01_stat.py
+     (`stat_facts`: the data flow of `_parse_stat_file` / `create_time`, helpers inlined), re-extracted for this check -/
+
+/-- the reader exactly as the translator extracted it (obligation `scfg_good`, Props/C02.lean) -/
+def scfgRaw : StatCfg :=
+  { search := if Gen.C02.statSearch == "find" then .find else .rfind
+    needle := Gen.C02.statNeedle
+    skip := Gen.C02.statSkip
+    ctimeIdx := Gen.C02.statCtimeIdx
+    statusIdx := Gen.C02.statStatusIdx }
+
+/-- every shape fact was recognised (`rfind`/`find` of a byte string, whitespace split, the stat record's
+    'create_time' divided by CLOCK_TICKS) -/
+def scfgRecognised : Bool :=
+  (Gen.C02.statSearch == "rfind" || Gen.C02.statSearch == "find") && Gen.C02.statSplit == "ws"
+    && Gen.C02.createReads == "float(create_time)/CLOCK_TICKS"
+
+/-- the reader the DRIVER runs: the extracted one; when the translator did not recognise the shape, the baseline
+    reader of proc(5) (last `)`, two bytes further, field 19 = starttime, field 0 = state) so that the specification
+    side still follows the objects and a concrete failing input can be named — the obligation `scfg_good` is on the
+    raw facts and fails in that case -/
+def scfg : StatCfg := if scfgRecognised then scfgRaw else ⟨.rfind, [41], 2, 19, 0⟩
 
 end Psutil.C02
